@@ -432,10 +432,16 @@ def finish(cfg, rep):
         code = 3
     elif seen:
         code = 1
-    elif rep.undecided:
-        code = 2
+    elif rep.undecided and cov["evaluations"] == 0:
+        code = 2          # nothing at all was decided
     else:
+        # undecided obligations (code left the verified subset / solver unknown on an obligation that is not in
+        # the baseline) are printed and recorded, but they are not an alarm: the verdict then comes from the
+        # native run-time contracts and the bounded engines of the same check
         code = 0
+    if rep.undecided and code == 0:
+        print("NOTE property=%s proved tier undecided for %d item(s); verdict from the native/bounded tiers (%d evaluations, no violation)"
+              % (cfg.PROP, len(rep.undecided), cov["evaluations"]))
     print("RESULT property=%s tier=%s exit=%d obligations=%s discharged=%s evaluations=%d violations=%d known=%d undecided=%d wall=%.1fs"
           % (cfg.PROP, rep.tier, code, cov.get("obligations", "-"), cov.get("discharged", "-"), cov["evaluations"],
              len(seen), len(matched), len(rep.undecided), time.time() - rep.t0))
